@@ -1,4 +1,5 @@
 import Cobweb.Scenario
+import Cobweb.SyscallScenario
 open Cobweb
 
 /-- Prints (oldest first) and clears the ghost trace. -/
@@ -26,6 +27,12 @@ partial def loop (p : Prog) (h : Hist) (s : St) (fuel : Nat) : IO Unit := do
 
 def runFile (path : String) : IO Unit := do
   let text ← IO.FS.readFile path
+  if (text.splitOn "\n").any (fun l => l.trimAscii.toString == "mode syscall") then
+    IO.println s!"scenario {path}"
+    match Sc.parseSc text with
+    | none => IO.println "parse-error"
+    | some sc => for l in Sc.runScenario sc do IO.println l
+    return
   match parseScenario text with
   | none => IO.println "parse-error"
   | some sc =>
